@@ -126,10 +126,11 @@ class C17Noise(Machine):
         seams.set_disk(self.disk)
         self.file_counter = 0
 
-    def _grid(self, k0=0, m=None, frac=0.0):
+    def _grid(self, k0=0, m=None, frac=0.0, step=1.0):
         cfg = self.cfg
         m = cfg["n"] if m is None else m
-        return cfg["t0"] + cfg["dt"] * (k0 + frac + np.arange(m))
+        # steps are multiples of a quarter sample step (the resolution of the absolute-time map)
+        return cfg["t0"] + cfg["dt"] * (k0 + frac + step * np.arange(m))
 
     def _inject(self, rng):
         if not self.cfg["buggify"] or not rng.chance(0.5):
@@ -173,12 +174,17 @@ class C17Noise(Machine):
         v = rng.randrange(max(1, len(self.views)))
         n = cfg["n"]
         if k == "with_times":
-            mode = rng.pick(["contained", "overlap", "disjoint", "far", "offgrid", "same"])
+            mode = rng.pick(["contained", "overlap", "disjoint", "far", "offgrid", "same", "fullperiod"])
+            unique = int((self.spec or {}).get("unique", 1))
             w = {"contained": [rng.randint(0, n // 2), max(2, n // 2)],
                  "overlap": [rng.pick([-n // 2, n // 2]), n], "disjoint": [2 * n + 1, n],
                  "far": [37 * n + 5, max(2, n // 2)], "offgrid": [rng.randint(-3, 3), n],
-                 "same": [0, n]}[mode]
-            return {"op": "with_times", "v": v, "k0": w[0], "m": w[1],
+                 "same": [0, n],
+                 # as many samples as one full period of the realisation, from its first sample
+                 "fullperiod": [0, unique * n]}[mode]
+            # the window's own sample step: the realisation is a function of time, not of sample index
+            step = rng.pick([1, 1, 1, 2, 0.5, 3, 1.5, 0.75]) if mode != "fullperiod" else rng.pick([1, 2, 0.5, 1.5])
+            return {"op": "with_times", "v": v, "k0": w[0], "m": w[1], "step": step,
                     "frac": rng.pick([0.5, 0.25]) if mode == "offgrid" else 0.0}
         if k == "shift":
             return {"op": "shift", "v": v, "k": rng.pick([1, -1, 5, -17, 100])}
@@ -191,7 +197,8 @@ class C17Noise(Machine):
             return {"op": k, "v": v, "k0": rng.randint(-n, n), "shift": rng.pick([1, -2, 7])}
         if k == "antenna_windows":
             return {"op": k, "unique": rng.pick([1, 2, 3]), "k0": rng.randint(-5, 20),
-                    "factor": rng.pick([2, 4, 6]), "edit_returned": rng.chance(0.5)}
+                    "factor": rng.pick([2, 4, 6]), "edit_returned": rng.chance(0.5),
+                    "reset_after": rng.chance(0.4)}
         if k == "independent":
             op = {"op": "independent"}
             inj = self._inject(rng)
@@ -338,7 +345,9 @@ class C17Noise(Machine):
 
     def _op_with_times(self, op):
         v = self._view(op)
-        new_t = self._grid(op["k0"], op["m"], op["frac"]) + v.shift
+        new_t = self._grid(op["k0"], op["m"], op["frac"], op.get("step", 1.0)) + v.shift
+        if op.get("step", 1.0) != 1.0:
+            self.count("probe.window_other_step")
         st, obj = self.sut(v.obj.with_times, new_t, where="with_times")
         nv = View(obj, v.shift)
         self._push(nv)
@@ -388,7 +397,8 @@ class C17Noise(Machine):
         st, obj = self.sut(self._construct, spec, times, where="ThermalNoise() for rebase")
         if len(obj.freqs) != len(self.basis.freqs):
             raise Violation("C17:rebuild-freqs", "same grid and band give different frequencies")
-        st, _ = self.sut(lambda: (np.array(obj.values), np.array(obj.with_times(times + self.cfg["dt"]).values)),
+        later = times + self.cfg["dt"]
+        st, _ = self.sut(lambda: (np.array(obj.values), np.array(obj.with_times(later).values)),
                          where="evaluate before rebase")
         if op.get("inplace"):
             # the published arrays are edited in place (same array objects)
@@ -397,12 +407,19 @@ class C17Noise(Machine):
         else:
             obj.amps = self.basis.amps.copy()
             obj.phases = self.basis.phases.copy()
-        window = self._grid(op["k0"], op["m"])
-        st, w = self.sut(obj.with_times, window, where="with_times after rebase")
         self.count("probe.rebuild_compared")
         self.nontrivial = True
-        nv = View(w, 0.0)
-        n = self._check_view(nv, "re-gridded after installing the basis on an evaluated object")
+        n = 0
+        if not op.get("inplace"):
+            # the object itself (its values were read before the assignment) publishes the new basis
+            n += self._check_view(View(obj, 0.0), "values of an evaluated object after its basis was assigned")
+        # the very windows that were evaluated before the basis changed, and a new one
+        for window, what in ((later, "re-gridded onto the window last evaluated before the basis was installed"),
+                             (times.copy(), "re-gridded onto its own grid after installing the basis"),
+                             (self._grid(op["k0"], op["m"]),
+                              "re-gridded after installing the basis on an evaluated object")):
+            st, w = self.sut(obj.with_times, window, where="with_times after rebase")
+            n += self._check_view(View(w, 0.0), what)
         return ["rebase_evaluated", n]
 
     def _op_shared_window(self, op):
@@ -441,6 +458,24 @@ class C17Noise(Machine):
         def run():
             first = ant.make_noise(w1)
             a = np.array(first.values, dtype=float)
+            if op.get("reset_after"):
+                held = ant.make_noise(w1)
+                hv = np.array(held.values, dtype=float)
+                ant.clear(reset_noise=True)
+                ant.make_noise(w2)
+                # a waveform handed out (and read) before the reset is still a function of
+                # absolute time: re-gridding it reproduces what was read
+                sub = w1[2:max(4, n // 2)]
+                again = np.array(held.with_times(sub).values, dtype=float)
+                if np.max(np.abs(again - hv[2:max(4, n // 2)])) > 1e-9 or \
+                        np.max(np.abs(np.array(held.values, dtype=float) - hv)) > 1e-9:
+                    raise Violation("C17:handed-out-noise-changed",
+                                    "a noise waveform obtained and read before clear(reset_noise=True) gives "
+                                    "other values when re-gridded afterwards (max |diff| %.3g)"
+                                    % float(np.max(np.abs(again - hv[2:max(4, n // 2)]))))
+                self.count("probe.reset_with_waveform_held")
+                first = ant.make_noise(w1)
+                a = np.array(first.values, dtype=float)
             if op.get("edit_returned"):
                 # the caller owns what make_noise returned: editing it in place must not
                 # change the antenna's noise
